@@ -2,7 +2,7 @@
 C02 — sum tensors: `innerprod`, `mttkrp`, `ttv` map the operation over the parts and add; the
 definitions (`Spec.*`) are linear in the operand, so the result is the operation on the cell-wise sum.
 -/
-import PyttbModel.Lemmas.MLKruskal
+import PyttbModel.Lemmas.MLTuckerOps
 namespace Pyttb
 namespace MLK
 
@@ -67,32 +67,28 @@ theorem spec_mttkrp_sum [CommSemiring α] (s : List Nat) (dens : List (Den α)) 
 
 /-! ### folds over the parts -/
 
-theorem foldlM_op_ok {β γ : Type} (ps : List β) (f : β → Except Reject γ) (v : β → γ) (op : γ → γ → γ)
-    (h : ∀ q ∈ ps, f q = .ok (v q)) (acc : γ) :
-    ps.foldlM (fun acc q => match f q with
-      | .error e => (Except.error e : Except Reject γ)
-      | .ok x => .ok (op acc x)) acc = .ok (ps.foldl (fun a q => op a (v q)) acc) := by
+theorem foldlM_step_ok {β γ : Type} (ps : List β) (step : γ → β → Except Reject γ) (g : γ → β → γ)
+    (h : ∀ a, ∀ q ∈ ps, step a q = .ok (g a q)) (acc : γ) :
+    ps.foldlM step acc = .ok (ps.foldl g acc) := by
   induction ps generalizing acc with
   | nil => rfl
   | cons q ps ih =>
-    rw [List.foldlM_cons, h q (List.mem_cons_self ..)]
-    exact ih (fun x hx => h x (List.mem_cons_of_mem _ hx)) _
+    rw [List.foldlM_cons, h acc q (List.mem_cons_self ..)]
+    exact ih (fun a x hx => h a x (List.mem_cons_of_mem _ hx)) _
 
-theorem foldlM_op_reject {β γ : Type} (ps : List β) (f : β → Except Reject γ) (op : γ → γ → γ)
-    (h : ∃ q ∈ ps, f q = .error .reject) (acc : γ) :
-    ps.foldlM (fun acc q => match f q with
-      | .error e => (Except.error e : Except Reject γ)
-      | .ok x => .ok (op acc x)) acc = .error .reject := by
+theorem foldlM_step_reject {β γ : Type} (ps : List β) (step : γ → β → Except Reject γ)
+    (h : ∃ q ∈ ps, ∀ a, step a q = .error .reject) (acc : γ) :
+    ps.foldlM step acc = .error .reject := by
   induction ps generalizing acc with
   | nil => obtain ⟨q, hq, _⟩ := h; cases hq
   | cons q ps ih =>
     rw [List.foldlM_cons]
-    cases hq : f q with
+    cases hq : step acc q with
     | error e => cases e; rfl
     | ok x =>
       obtain ⟨q', hq', he⟩ := h
       rcases List.mem_cons.1 hq' with rfl | hmem
-      · rw [hq] at he; cases he
+      · rw [he acc] at hq; cases hq
       · exact ih ⟨q', hmem, he⟩ _
 
 theorem foldl_add [AddMonoid α] {β : Type} (ps : List β) (v : β → α) (acc : α) :
@@ -111,8 +107,8 @@ theorem sum_innerprod_spec [CommSemiring α] [BEq α] (p0 : ML.Part α) (ps : Li
     ML.Sumtensor.innerprod (p0 :: ps) o = .ok (Spec.inner (sumDen p0.shape (p0 :: ps)) (partDen o)) := by
   unfold ML.Sumtensor.innerprod
   simp only [hparts p0 (List.mem_cons_self ..)]
-  rw [foldlM_op_ok ps (fun q => q.innerprod o) (fun q => Spec.inner (partDen q) (partDen o)) (· + ·)
-    (fun q hq => hparts q (List.mem_cons_of_mem _ hq)), foldl_add]
+  rw [foldlM_step_ok ps _ (fun a q => a + Spec.inner (partDen q) (partDen o))
+    (fun a q hq => by simp only [hparts q (List.mem_cons_of_mem _ hq)]), foldl_add]
   congr 1
   unfold sumDen
   rw [spec_inner_sum p0.shape _ _ (by
@@ -135,11 +131,11 @@ theorem sum_innerprod_rejects [Add α] [Mul α] [Zero α] [BEq α] (S : ML.Sumte
     | error e => cases e; rfl
     | ok v =>
       simp only
-      apply foldlM_op_reject ps (fun q => q.innerprod o) (· + ·)
+      apply foldlM_step_reject ps
       obtain ⟨q, hq, he⟩ := h
       rcases List.mem_cons.1 hq with rfl | hmem
       · rw [h0] at he; cases he
-      · exact ⟨q, hmem, he⟩
+      · exact ⟨q, hmem, fun a => by simp only [he]⟩
 
 /-! ### `mttkrp` -/
 
@@ -208,8 +204,8 @@ theorem sum_mttkrp_spec [CommSemiring α] [BEq α] (p0 : ML.Part α) (ps : List 
   refine ⟨ps.foldl (fun a q => ML.Sumtensor.addMat a (V q)) (V p0), ?_, f1, ?_⟩
   · unfold ML.Sumtensor.mttkrp
     simp only [e0]
-    exact foldlM_op_ok ps (fun q => q.mttkrp U n) V ML.Sumtensor.addMat
-      (fun q hq => (hV q (List.mem_cons_of_mem _ hq)).1) _
+    exact foldlM_step_ok ps _ (fun a q => ML.Sumtensor.addMat a (V q))
+      (fun a q hq => by simp only [(hV q (List.mem_cons_of_mem _ hq)).1]) _
   · intro i r hi hr
     rw [f2 i r hi hr, g0 i r hi hr]
     unfold sumDen
@@ -228,24 +224,26 @@ theorem sum_mttkrp_spec [CommSemiring α] [BEq α] (p0 : ML.Part α) (ps : List 
 /-! ### `ttv` -/
 
 theorem sum_ttv_scalars [AddCommMonoid α] [Mul α] [One α] (S : List (ML.Part α)) (r : ML.Part α → ScalarOr α (ML.Part α))
+    (fs : ScalarOr α (ML.Part α) → Option α) (fo : ScalarOr α (ML.Part α) → Option (ML.Part α))
+    (hfs : ∀ v, fs (.scalar v) = some v) (hfo : ∀ v, fo (.scalar v) = none)
     (h : ∀ p ∈ S, ∃ v, r p = .scalar v) (i : List Nat) :
-    ((S.map r).filterMap fun x => match x with | .scalar _ => none | .obj o => some o) = [] ∧
-    ((S.map r).filterMap fun x => match x with | .scalar v => some v | .obj _ => none).sum =
-      (S.map fun p => partResGet (r p) i).sum := by
+    (S.map r).filterMap fo = [] ∧
+    ((S.map r).filterMap fs).sum = (S.map fun p => partResGet (r p) i).sum := by
   induction S with
   | nil => exact ⟨rfl, rfl⟩
   | cons p S ih =>
     obtain ⟨v, hv⟩ := h p (List.mem_cons_self ..)
     obtain ⟨h1, h2⟩ := ih (fun q hq => h q (List.mem_cons_of_mem _ hq))
-    simp only [List.map_cons, hv, List.filterMap_cons, List.sum_cons, h1, h2, partResGet, and_self]
+    simp only [List.map_cons, hv, List.filterMap_cons, hfs, hfo, List.sum_cons, h1, h2, partResGet, and_self]
 
 theorem sum_ttv_objs (S : List (ML.Part α)) (r : ML.Part α → ScalarOr α (ML.Part α)) (o : ML.Part α → ML.Part α)
+    (fo : ScalarOr α (ML.Part α) → Option (ML.Part α)) (hfo : ∀ x, fo (.obj x) = some x)
     (h : ∀ p ∈ S, r p = .obj (o p)) :
-    ((S.map r).filterMap fun x => match x with | .scalar _ => none | .obj o => some o) = S.map o := by
+    (S.map r).filterMap fo = S.map o := by
   induction S with
   | nil => rfl
   | cons p S ih =>
-    simp only [List.map_cons, h p (List.mem_cons_self ..), List.filterMap_cons,
+    simp only [List.map_cons, h p (List.mem_cons_self ..), List.filterMap_cons, hfo,
       ih (fun q hq => h q (List.mem_cons_of_mem _ hq))]
 
 /-- **`sumtensor.ttv`**, structure: the parts' results are all scalars (summed) or all tensor objects
@@ -261,29 +259,52 @@ theorem sum_ttv_struct [CommSemiring α] [BEq α] (S : ML.Sumtensor α) (vs : Li
       ∀ i, sumResGet res i = (S.map fun p => partResGet (r p) i).sum := by
   have hm := mapM_ok S (fun p => p.ttv vs dims excl) r h
   rcases hkind with hk | ⟨hne, hk⟩
-  · refine ⟨.scalar ((S.map r).filterMap fun x => match x with | .scalar v => some v | .obj _ => none).sum,
-      ?_, fun _ _ => hk, (fun _ h => by cases h), fun i => (sum_ttv_scalars S r hk i).2⟩
+  · have key : ∀ fs fo, (∀ v, fs (ScalarOr.scalar v : ScalarOr α (ML.Part α)) = some v) →
+        (∀ v, fo (ScalarOr.scalar v : ScalarOr α (ML.Part α)) = (none : Option (ML.Part α))) →
+        ∃ res, (if ((S.map r).filterMap fo).isEmpty = true then
+            (Except.ok (.scalar ((S.map r).filterMap fs).sum) : Except Reject (ScalarOr α (ML.Sumtensor α)))
+          else .ok (.obj ((S.map r).filterMap fo))) = .ok res ∧
+          (∀ v, res = .scalar v → ∀ p ∈ S, ∃ v', r p = .scalar v') ∧
+          (∀ S', res = .obj S' → S'.length = S.length ∧ ∀ p ∈ S, ∃ o, r p = .obj o) ∧
+          ∀ i, sumResGet res i = (S.map fun p => partResGet (r p) i).sum := by
+      intro fs fo hfs hfo
+      refine ⟨.scalar ((S.map r).filterMap fs).sum, ?_, fun _ _ => hk, (fun _ h => by cases h),
+        fun i => (sum_ttv_scalars S r fs fo hfs hfo hk i).2⟩
+      rw [(sum_ttv_scalars S r fs fo hfs hfo hk []).1]
+      rfl
     unfold ML.Sumtensor.ttv
-    simp only [hm, (sum_ttv_scalars S r hk []).1, List.isEmpty_nil, if_true]
+    simp only [hm]
+    exact key _ _ (fun _ => rfl) (fun _ => rfl)
   · classical
     choose! o ho using hk
-    have hparts := sum_ttv_objs S r o ho
-    refine ⟨.obj (S.map o), ?_, (fun _ h => by cases h),
-      (fun S' h => by cases h; exact ⟨by simp, fun p hp => ⟨o p, ho p hp⟩⟩), ?_⟩
-    · unfold ML.Sumtensor.ttv
-      have : (S.map o).isEmpty = false := by
+    have key : ∀ (fs : ScalarOr α (ML.Part α) → Option α) fo, (∀ x, fo (ScalarOr.obj x : ScalarOr α (ML.Part α)) = some x) →
+        ∃ res, (if ((S.map r).filterMap fo).isEmpty = true then
+            (Except.ok (.scalar ((S.map r).filterMap fs).sum) : Except Reject (ScalarOr α (ML.Sumtensor α)))
+          else .ok (.obj ((S.map r).filterMap fo))) = .ok res ∧
+          (∀ v, res = .scalar v → ∀ p ∈ S, ∃ v', r p = .scalar v') ∧
+          (∀ S', res = .obj S' → S'.length = S.length ∧ ∀ p ∈ S, ∃ o, r p = .obj o) ∧
+          ∀ i, sumResGet res i = (S.map fun p => partResGet (r p) i).sum := by
+      intro fs fo hfo
+      have hparts := sum_ttv_objs S r o fo hfo ho
+      have hne' : (S.map o).isEmpty = false := by
         cases S with
         | nil => exact absurd rfl hne
         | cons a l => rfl
-      simp only [hm, hparts, this, Bool.false_eq_true, if_false]
-    · intro i
-      show ((S.map o).map fun p => p.get i).sum = _
-      rw [List.map_map]
-      apply sum_congr
-      intro p hp
-      show (o p).get i = partResGet (r p) i
-      rw [ho p hp]
-      rfl
+      refine ⟨.obj (S.map o), ?_, (fun _ h => by cases h),
+        (fun S' h => by cases h; exact ⟨by simp, fun p hp => ⟨o p, ho p hp⟩⟩), ?_⟩
+      · rw [hparts, hne']
+        rfl
+      · intro i
+        show ((S.map o).map fun p => p.get i).sum = _
+        rw [List.map_map]
+        apply sum_congr
+        intro p hp
+        show (o p).get i = partResGet (r p) i
+        rw [ho p hp]
+        rfl
+    unfold ML.Sumtensor.ttv
+    simp only [hm]
+    exact key _ _ (fun _ => rfl)
 
 /-- **`sumtensor.ttv`**: when every part's `ttv` denotes the defined value (and the parts agree on
 whether the result is a scalar), the sum tensor's result denotes the defined value for the
@@ -298,6 +319,7 @@ theorem sum_ttv_spec [CommSemiring α] [BEq α] (p0 : ML.Part α) (ps : List (ML
       ((∃ v, res = .scalar v) ↔ rshape = []) ∧
       ∀ i, InBounds rshape i → sumResGet res i = Spec.ttv (sumDen p0.shape (p0 :: ps)) sel w i := by
   classical
+  have : Nonempty (ScalarOr α (ML.Part α)) := ⟨.scalar 0⟩
   choose! r hr using hparts
   have hkind : (∀ p ∈ p0 :: ps, ∃ v, r p = .scalar v) ∨ (p0 :: ps ≠ [] ∧ ∀ p ∈ p0 :: ps, ∃ o, r p = .obj o) := by
     by_cases h0 : rshape = []
@@ -330,6 +352,481 @@ theorem sum_ttv_spec [CommSemiring α] [BEq α] (p0 : ML.Part α) (ps : List (ML
     apply sum_congr
     intro p hp
     exact (hr p hp).2.2 i hi
+
+/-! ### every kind of part -/
+
+/-- The sparse `ttv` kernel returns a scalar exactly when no mode is left, otherwise a tensor. -/
+theorem sparse_ttvCore_kind [Add α] [Mul α] [Zero α] [BEq α] (S : Sparse α) (pairs : List (Nat × List α)) (r : ML.Res α)
+    (h : S.ttvCore pairs = .ok r) :
+    (complDims S.shape.length (pairs.map (·.1)) = [] ∧ ∃ v, r = .scalar v) ∨
+    (complDims S.shape.length (pairs.map (·.1)) ≠ [] ∧ ((∃ t, r = .dense t) ∨ ∃ s, r = .sparse s)) := by
+  unfold Sparse.ttvCore at h
+  simp only at h
+  split at h
+  · cases h
+  · split at h
+    · cases h
+    · split at h
+      · rename_i hre
+        exact Or.inl ⟨List.isEmpty_iff.1 hre, _, (Except.ok.inj h).symm⟩
+      · rename_i hre
+        refine Or.inr ⟨fun h0 => hre (by rw [h0]; rfl), ?_⟩
+        repeat' split at h
+        all_goals first
+          | exact Or.inl ⟨_, (Except.ok.inj h).symm⟩
+          | exact Or.inr ⟨_, (Except.ok.inj h).symm⟩
+
+theorem gather_eq_nil {s rem : List Nat} (h : gather s rem = []) : rem = [] := by
+  have := congrArg List.length h
+  simpa using this
+
+/-- **`ttv` of any part**, `dims` in any order, one vector per listed mode: a scalar exactly when
+every mode is selected; the result denotes `Spec.ttv` of what the part denotes. -/
+theorem part_ttv_dims [CommSemiring α] [DecidableEq α] (p : ML.Part α) (hp : PartWF p) (d : List Nat)
+    (vs : List (List α)) (hd : d.Nodup) (hN : ∀ x ∈ d, x < p.shape.length) (hl : vs.length = d.length)
+    (hsz : ∀ q ∈ d.zip vs, q.2.length = p.shape.getD q.1 0)
+    (w : Nat → Nat → α) (hw : ∀ q ∈ d.zip vs, ∀ k, w q.1 k = q.2.getD k 0) :
+    ∃ r, p.ttv vs (some (d.map Int.ofNat)) none = .ok r ∧
+      ((∃ v, r = .scalar v) ↔ complDims p.shape.length d = []) ∧
+      ∀ i, InBounds (gather p.shape (complDims p.shape.length d)) i →
+        partResGet r i = Spec.ttv (partDen p) d w i := by
+  cases p with
+  | dense t =>
+    obtain ⟨pairs, e, hs, hpm⟩ := resolve_dims_P t.shape.length vs d hd hN hl
+    obtain ⟨f1, f2, f3, f4⟩ := pairs_facts t.shape List.length d vs pairs hd hN hl hsz hs hpm
+    obtain ⟨r, hr, hsh, hg⟩ := dense_ttvCore_spec t hp pairs f1 f2 f3 w (fun q hq => hw q (hpm.subset hq))
+    have hcd : complDims t.shape.length (pairs.map (·.1)) = complDims t.shape.length d := complDims_perm f4
+    have hmodel : t.ttv vs (some (d.map Int.ofNat)) none = .ok r := by unfold Dense.ttv; rw [e]; exact hr
+    show ∃ r, _ ∧ (_ ↔ complDims t.shape.length d = []) ∧
+      ∀ i, InBounds (gather t.shape (complDims t.shape.length d)) i → _
+    cases r with
+    | scalar v =>
+      refine ⟨.scalar v, ?_, ?_, ?_⟩
+      · simp only [ML.Part.ttv, hmodel]
+      · refine ⟨fun _ => ?_, fun _ => ⟨v, rfl⟩⟩
+        rw [← hcd]
+        exact gather_eq_nil (s := t.shape) (by
+          have : ([] : List Nat) = Spec.ttvShape t.shape (pairs.map (·.1)) := hsh
+          exact this.symm)
+      · intro i hi
+        have := hg i (by rw [hsh]; unfold Spec.ttvShape; rw [hcd]; exact hi)
+        rw [spec_ttv_perm _ f4] at this
+        exact this
+    | obj o =>
+      have hos : o.shape = gather t.shape (complDims t.shape.length d) := by
+        have : o.shape = Spec.ttvShape t.shape (pairs.map (·.1)) := hsh
+        rw [this]; unfold Spec.ttvShape; rw [hcd]
+      refine ⟨.obj (.dense o), ?_, ?_, ?_⟩
+      · simp only [ML.Part.ttv, hmodel]
+      · refine ⟨(fun ⟨v, h⟩ => by cases h), fun h0 => ?_⟩
+        have := dense_ttvCore_obj_pos t pairs o hr
+        rw [hos, length_gather, h0] at this
+        simp at this
+      · intro i hi
+        have := hg i (by show InBounds o.shape i; rw [hos]; exact hi)
+        rw [spec_ttv_perm _ f4] at this
+        exact this
+  | sparse s =>
+    obtain ⟨pairs, e, hs, hpm⟩ := resolve_dims_P s.shape.length vs d hd hN hl
+    obtain ⟨f1, f2, f3, f4⟩ := pairs_facts s.shape List.length d vs pairs hd hN hl hsz hs hpm
+    obtain ⟨r, hr, hsh, hg⟩ := sparse_ttvCore_spec s hp pairs f1 f2 f3 w (fun q hq => hw q (hpm.subset hq))
+    have hcd : complDims s.shape.length (pairs.map (·.1)) = complDims s.shape.length d := complDims_perm f4
+    have hrs : r.shape = gather s.shape (complDims s.shape.length d) := by
+      rw [hsh]; unfold Spec.ttvShape; rw [hcd]
+    have hval : ∀ i, InBounds (gather s.shape (complDims s.shape.length d)) i →
+        r.get i = Spec.ttv s.den d w i := by
+      intro i hi
+      rw [hg i (by rw [hrs]; exact hi), spec_ttv_perm _ f4]
+    have hmodel : s.ttv vs (some (d.map Int.ofNat)) none = .ok r := by unfold Sparse.ttv; rw [e]; exact hr
+    show ∃ r, _ ∧ (_ ↔ complDims s.shape.length d = []) ∧
+      ∀ i, InBounds (gather s.shape (complDims s.shape.length d)) i → _
+    rcases sparse_ttvCore_kind s pairs r hr with ⟨h0, v, rfl⟩ | ⟨h0, ⟨t, rfl⟩ | ⟨t, rfl⟩⟩
+    · refine ⟨.scalar v, ?_, ⟨fun _ => hcd ▸ h0, fun _ => ⟨v, rfl⟩⟩, hval⟩
+      simp only [ML.Part.ttv, hmodel]
+    · refine ⟨.obj (.dense t), ?_, ⟨(fun ⟨v, h⟩ => by cases h), fun h => absurd (hcd ▸ h) h0⟩, hval⟩
+      simp only [ML.Part.ttv, hmodel]
+    · refine ⟨.obj (.sparse t), ?_, ⟨(fun ⟨v, h⟩ => by cases h), fun h => absurd (hcd ▸ h) h0⟩, hval⟩
+      simp only [ML.Part.ttv, hmodel]
+  | kruskal k =>
+    have hkl : k.shape.length = k.factors.length := kshape_length k
+    obtain ⟨r, hr, hsh, hk, hg⟩ := kruskal_ttv_dims k d vs hd (by intro x hx; rw [← hkl]; exact hN x hx) hl hsz w hw
+    have hrs : kresShape r = gather k.shape (complDims k.shape.length d) := by rw [hsh]; rfl
+    cases r with
+    | scalar v =>
+      refine ⟨.scalar v, ?_, ?_, ?_⟩
+      · simp only [ML.Part.ttv, hr]
+      · show _ ↔ complDims k.shape.length d = []
+        rw [hkl, ← hk]; exact ⟨fun _ => ⟨v, rfl⟩, fun _ => ⟨v, rfl⟩⟩
+      · intro i hi
+        exact hg i (by rw [hrs]; exact hi)
+    | obj o =>
+      refine ⟨.obj (.kruskal o), ?_, ?_, ?_⟩
+      · simp only [ML.Part.ttv, hr]
+      · show _ ↔ complDims k.shape.length d = []
+        rw [hkl, ← hk]; exact ⟨(fun ⟨v, h⟩ => by cases h), fun ⟨v, h⟩ => by cases h⟩
+      · intro i hi
+        exact hg i (by rw [hrs]; exact hi)
+  | tucker t =>
+    have htl : t.shape.length = t.factors.length := tshape_length t
+    obtain ⟨r, hr, hsh, hk, hg⟩ := tucker_ttv_dims t hp.1 d vs hd (by intro x hx; rw [← htl]; exact hN x hx) hl hsz w hw
+    have hrs : tresShape r = gather t.shape (complDims t.shape.length d) := by rw [hsh]; rfl
+    cases r with
+    | scalar v =>
+      refine ⟨.scalar v, ?_, ?_, ?_⟩
+      · simp only [ML.Part.ttv, hr]
+      · show _ ↔ complDims t.shape.length d = []
+        rw [htl, ← hk]; exact ⟨fun _ => ⟨v, rfl⟩, fun _ => ⟨v, rfl⟩⟩
+      · intro i hi
+        exact hg i (by rw [hrs]; exact hi)
+    | obj o =>
+      refine ⟨.obj (.tucker o), ?_, ?_, ?_⟩
+      · simp only [ML.Part.ttv, hr]
+      · show _ ↔ complDims t.shape.length d = []
+        rw [htl, ← hk]; exact ⟨(fun ⟨v, h⟩ => by cases h), fun ⟨v, h⟩ => by cases h⟩
+      · intro i hi
+        exact hg i (by rw [hrs]; exact hi)
+
+theorem part_ttv_none [Add α] [Mul α] [Zero α] [BEq α] (p : ML.Part α) (vs : List (List α)) :
+    p.ttv vs none none = p.ttv vs (some ((List.range p.shape.length).map Int.ofNat)) none := by
+  cases p with
+  | dense t => simp only [ML.Part.ttv, Dense.ttv, resolve_none, ML.Part.shape]
+  | sparse s => simp only [ML.Part.ttv, Sparse.ttv, resolve_none, ML.Part.shape]
+  | kruskal k => simp only [ML.Part.ttv, Ktensor.ttv, resolve_none, ML.Part.shape, kshape_length]
+  | tucker t => simp only [ML.Part.ttv, Ttensor.ttv, resolve_none, ML.Part.shape, tshape_length]
+
+/-- **`ttv` of any part with one vector for every mode**: the scalar `Σ_k ⟦p⟧[k] ∏_m v_m[k_m]`. -/
+theorem part_ttv_all [CommSemiring α] [DecidableEq α] (p : ML.Part α) (hp : PartWF p) (vs : List (List α))
+    (hl : vs.length = p.shape.length)
+    (hsz : ∀ m, m < p.shape.length → (vs.getD m []).length = p.shape.getD m 0) :
+    ∃ v, p.ttv vs none none = .ok (.scalar v) ∧
+      v = ((allSubs p.shape).map fun k => p.get k *
+        ((List.range p.shape.length).map fun m => (vs.getD m []).getD (k.getD m 0) 0).prod).sum := by
+  set N := p.shape.length with hN
+  have hmem : ∀ q ∈ (List.range N).zip vs, q.1 < N ∧ q.2 = vs.getD q.1 [] := by
+    intro q hq
+    rw [← hl, zip_range_eq_map vs []] at hq
+    obtain ⟨k, hk, rfl⟩ := List.mem_map.1 hq
+    exact ⟨by rw [← hl]; exact List.mem_range.1 hk, rfl⟩
+  obtain ⟨r, hr, hk, hg⟩ := part_ttv_dims p hp (List.range N) vs List.nodup_range
+    (fun x hx => List.mem_range.1 hx) (by simp [hl])
+    (fun q hq => by rw [(hmem q hq).2]; exact hsz q.1 (hmem q hq).1)
+    (fun m x => (vs.getD m []).getD x 0)
+    (fun q hq k => by rw [(hmem q hq).2])
+  rw [← hN, complDims_range] at hk hg
+  obtain ⟨v, rfl⟩ := hk.2 rfl
+  refine ⟨v, by rw [part_ttv_none]; exact hr, ?_⟩
+  have := hg [] trivial
+  rw [show partResGet (.scalar v) [] = v from rfl] at this
+  rw [this]
+  show ((Spec.fiber p.shape (complDims p.shape.length (List.range N)) []).map _).sum = _
+  rw [← hN, complDims_range, fiber_nil]
+  rfl
+
+/-- **`ktensor.innerprod(other)`** for any non-Kruskal `other` (one full `ttv` per component). -/
+theorem kruskalVia_spec [CommSemiring α] [DecidableEq α] (K : Ktensor α) (other : ML.Part α) (ho : PartWF other)
+    (hs : K.shape = other.shape) :
+    ML.Part.kruskalVia K other = .ok (Spec.inner K.den (partDen other)) := by
+  have hNl : other.shape.length = K.factors.length := by rw [← hs, kshape_length]
+  have hvs : ∀ r, ∃ v, other.ttv (K.factors.map fun A => A.colOf r) none none = .ok (.scalar v) ∧
+      v = ((allSubs K.shape).map fun k => other.get k * K.comp r k).sum := by
+    intro r
+    obtain ⟨v, hv, hval⟩ := part_ttv_all other ho (K.factors.map fun A => A.colOf r)
+      (by rw [List.length_map, hNl])
+      (by
+        intro m _
+        rw [show ([] : List α) = Mat.colOf ([] : Mat α) r from rfl, getD_map' (fun A => Mat.colOf A r) K.factors m []]
+        rw [← hs, kshape_getD]
+        simp [Mat.colOf])
+    refine ⟨v, hv, ?_⟩
+    rw [hval, ← hs]
+    apply sum_congr
+    intro k hk
+    have hkl : k.length = K.factors.length := by rw [(mem_allSubs.1 hk).length_eq, kshape_length]
+    rw [comp_eq_range K r k hkl, kshape_length]
+    congr 2
+    apply List.map_congr_left
+    intro m _
+    rw [show ([] : List α) = Mat.colOf ([] : Mat α) r from rfl, getD_map' (fun A => Mat.colOf A r) K.factors m []]
+    exact getD_map_col _ _ _
+  choose vf hvf using hvs
+  unfold ML.Part.kruskalVia
+  have : (K.shape != other.shape) = false := by simp [hs]
+  rw [this]
+  simp only [Bool.false_eq_true, if_false]
+  rw [foldlM_step_ok (List.range K.ncomp) _ (fun a r => a + K.weights.getD r 0 * vf r)
+    (fun a r _ => by simp only [(hvf r).1]), foldl_add, zero_add]
+  congr 1
+  show _ = ((allSubs K.shape).map fun k => K.get k * other.get k).sum
+  have hterm : ∀ k ∈ allSubs K.shape, K.get k * other.get k =
+      ((List.range K.ncomp).map fun r => K.weights.getD r 0 * (other.get k * K.comp r k)).sum := by
+    intro k _
+    unfold Ktensor.get
+    rw [← List.sum_map_mul_right]
+    apply sum_congr
+    intro r _
+    ring
+  rw [List.map_congr_left hterm, sum_comm]
+  apply sum_congr
+  intro r _
+  rw [(hvf r).2, List.sum_map_mul_left]
+
+/-- The same with the operands named the other way round (`other.innerprod(K)` dispatches here). -/
+theorem kruskalVia_spec' [CommSemiring α] [DecidableEq α] (K : Ktensor α) (other : ML.Part α) (ho : PartWF other)
+    (hs : K.shape = other.shape) :
+    ML.Part.kruskalVia K other = .ok (Spec.inner (partDen other) K.den) := by
+  rw [kruskalVia_spec K other ho hs]
+  exact congrArg _ (spec_inner_comm _ _ hs)
+
+/-- Pairs of parts whose inner product is proved on every branch (Tucker · sparse only through
+`full()`; the other branch goes through the sparse `ttm`). -/
+def InnerOk : ML.Part α → ML.Part α → Prop
+  | .sparse _, .tucker t => numel t.shape < numel t.core.shape
+  | .tucker t, .sparse _ => numel t.shape < numel t.core.shape
+  | _, _ => True
+
+/-- **`x.innerprod(y)` across representations** is `Σ_k ⟦x⟧[k]·⟦y⟧[k]`. -/
+theorem part_innerprod_spec [CommSemiring α] [DecidableEq α] (x y : ML.Part α) (hx : PartWF x) (hy : PartWF y)
+    (hs : x.shape = y.shape) (hok : InnerOk x y) :
+    x.innerprod y = .ok (Spec.inner (partDen x) (partDen y)) := by
+  cases x with
+  | dense a =>
+    cases y with
+    | dense b => exact dense_innerprod_spec a b hx hy hs
+    | sparse b =>
+      show b.innerprodDense a = _
+      rw [sparse_innerprodDense_spec b hy a hs.symm]
+      exact congrArg _ (spec_inner_comm _ _ hs.symm)
+    | kruskal b =>
+      show ML.Part.kruskalVia b (.dense a) = _
+      rw [kruskalVia_spec b (.dense a) hx hs.symm]
+      exact congrArg _ (spec_inner_comm _ _ hs.symm)
+    | tucker b =>
+      show b.innerprodDense a = _
+      rw [tucker_innerprodDense_spec b hy.1 hy.2 a hx hs.symm]
+      exact congrArg _ (spec_inner_comm _ _ hs.symm)
+  | sparse a =>
+    cases y with
+    | dense b => exact sparse_innerprodDense_spec a hx b hs
+    | sparse b => exact sparse_innerprodSparse_spec a b hx hy hs
+    | kruskal b =>
+      show ML.Part.kruskalVia b (.sparse a) = _
+      rw [kruskalVia_spec b (.sparse a) hx hs.symm]
+      exact congrArg _ (spec_inner_comm _ _ hs.symm)
+    | tucker b =>
+      show b.innerprodSparse a = _
+      rw [tucker_innerprodSparse_full b hy.1 hy.2 a hx hs.symm hok]
+      exact congrArg _ (spec_inner_comm _ _ hs.symm)
+  | kruskal a =>
+    cases y with
+    | dense b => exact kruskalVia_spec a (.dense b) hy hs
+    | sparse b => exact kruskalVia_spec a (.sparse b) hy hs
+    | kruskal b => exact kruskal_innerprodK_spec a b hs
+    | tucker b => exact kruskalVia_spec a (.tucker b) hy hs
+  | tucker a =>
+    cases y with
+    | dense b => exact tucker_innerprodDense_spec a hx.1 hx.2 b hy hs
+    | sparse b => exact tucker_innerprodSparse_full a hx.1 hx.2 b hy hs hok
+    | kruskal b =>
+      show ML.Part.kruskalVia b (.tucker a) = _
+      rw [kruskalVia_spec b (.tucker a) hx hs.symm]
+      exact congrArg _ (spec_inner_comm _ _ hs.symm)
+    | tucker b => exact tucker_innerprodT_spec a b hx.1 hy.1 hx.2 hs
+
+/-! ### `mttkrp` of every kind of part returns an `I × R` matrix -/
+
+theorem dense_mttkrpCore_shape [Add α] [Mul α] [Zero α] (T : Dense α) (U : List (Mat α)) (n : Nat) (V : Mat α)
+    (h : T.mttkrpCore U n = .ok V) :
+    MatShape V (T.shape.getD n 0) (if n == 0 then (U.getD 1 []).ncols else (U.getD 0 []).ncols) := by
+  unfold Dense.mttkrpCore at h
+  simp only at h
+  generalize (if n == 0 then (U.getD 1 []).ncols else (U.getD 0 []).ncols) = R at h ⊢
+  repeat' split at h
+  all_goals cases h
+  all_goals
+    refine ⟨by simp [Mat.mulD], fun row hrow => ?_⟩
+    simp only [Mat.mulD] at hrow
+    obtain ⟨a, _, rfl⟩ := List.mem_map.1 hrow
+    simp
+
+theorem mapM_length {γ δ : Type} (l : List γ) (f : γ → Except Reject δ) (cs : List δ)
+    (h : l.mapM f = .ok cs) : cs.length = l.length := by
+  induction l generalizing cs with
+  | nil =>
+    have : ([] : List γ).mapM f = .ok [] := rfl
+    rw [this] at h
+    cases h; rfl
+  | cons a l ih =>
+    rw [List.mapM_cons] at h
+    cases ha : f a with
+    | error e => rw [ha] at h; cases h
+    | ok b =>
+      cases hl : l.mapM f with
+      | error e => rw [ha, hl] at h; cases h
+      | ok bs =>
+        rw [ha, hl] at h
+        cases h
+        simp [ih bs hl]
+
+theorem sparse_mttkrp_shape [Add α] [Mul α] [Zero α] [BEq α] (S : Sparse α) (U : List (Mat α)) (n : Nat) (V : Mat α)
+    (h : S.mttkrp (.list U) n = .ok V) :
+    MatShape V (S.shape.getD n 0) (if n == 0 then (U.getD 1 []).ncols else (U.getD 0 []).ncols) := by
+  unfold Sparse.mttkrp at h
+  simp only at h
+  split at h
+  · cases h
+  · split at h
+    · cases h
+    · rename_i fs hfs
+      have hfsU : fs = U := by
+        unfold getMttkrpFactors at hfs
+        simp only at hfs
+        split at hfs
+        · cases hfs
+        · exact (Except.ok.inj hfs).symm
+      subst hfsU
+      generalize (if n == 0 then (fs.getD 1 []).ncols else (fs.getD 0 []).ncols) = R at h ⊢
+      split at h
+      · cases h
+      · split at h
+        · cases h
+        · split at h
+          · cases h
+          · rename_i cs hcs
+            have hl := mapM_length _ _ _ hcs
+            injection h with h
+            subst h
+            refine ⟨by simp, ?_⟩
+            intro row hrow
+            obtain ⟨i, _, rfl⟩ := List.mem_map.1 hrow
+            simpa using hl
+
+/-- Positivity the Tucker `mttkrp` needs of the core. -/
+def PartPos : ML.Part α → Prop
+  | .tucker t => ∀ e ∈ t.core.shape, 0 < e
+  | _ => True
+
+/-- **`mttkrp` of any part with a factor list**: an `I × R` matrix with the defined entries. -/
+theorem part_mttkrp_list [CommSemiring α] [DecidableEq α] (p : ML.Part α) (hp : PartWF p) (hpp : PartPos p)
+    (U : List (Mat α)) (n R : Nat)
+    (hN2 : 2 ≤ p.shape.length) (hn : n < p.shape.length) (hlen : U.length = p.shape.length)
+    (hrows : ∀ m, m < p.shape.length → m ≠ n → (U.getD m []).length = p.shape.getD m 0)
+    (hcols : ∀ m, m < p.shape.length → m ≠ n → ∀ row ∈ U.getD m [], row.length = R)
+    (hpos : ∀ e ∈ p.shape, 0 < e) :
+    ∃ V, p.mttkrp (.list U) n = .ok V ∧ MatShape V (p.shape.getD n 0) R ∧
+      ∀ i r, i < p.shape.getD n 0 → r < R →
+        V.get i r = Spec.mttkrp (partDen p) (fun m x c => (U.getD m []).get x c) (fun _ => 1) n i r := by
+  have hposm : ∀ m, m < p.shape.length → 0 < p.shape.getD m 0 := by
+    intro m hm
+    apply hpos
+    rw [getD0_of_lt _ _ hm]
+    exact List.getElem_mem hm
+  have hR : (if n == 0 then (U.getD 1 []).ncols else (U.getD 0 []).ncols) = R :=
+    mttkrp_R U n p.shape.length R hN2 hn hcols (fun m hm hmn => by rw [hrows m hm hmn]; exact hposm m hm)
+  cases p with
+  | dense t =>
+    obtain ⟨V, hV, hval⟩ := dense_mttkrpCore_spec t U n R hp hN2 hn hlen hrows hcols hpos
+    have hsh := dense_mttkrpCore_shape t U n V hV
+    rw [hR] at hsh
+    refine ⟨V, ?_, hsh, hval⟩
+    show t.mttkrp (.list U) n = _
+    unfold Dense.mttkrp getMttkrpFactors
+    have h1 : ¬ (t.shape.length < 2) := by
+      have : 2 ≤ t.shape.length := hN2
+      omega
+    have h2 : (U.length != t.shape.length) = false := by
+      have : U.length = t.shape.length := hlen
+      simp [this]
+    simp only [h1, if_false, h2, Bool.false_eq_true]
+    exact hV
+  | sparse s =>
+    obtain ⟨V, hV, hval⟩ := sparse_mttkrp_list_spec s hp U n R hN2 hn hlen hrows hcols hpos
+    have hsh := sparse_mttkrp_shape s U n V hV
+    rw [hR] at hsh
+    exact ⟨V, hV, hsh, hval⟩
+  | kruskal k =>
+    have hkl : k.shape.length = k.factors.length := kshape_length k
+    obtain ⟨V, hV, h1, h2, hval⟩ := kruskal_mttkrp_list_spec k U n R (hkl ▸ hN2) (hkl ▸ hn) (hkl ▸ hlen)
+      (fun m hm hmn => by rw [← kshape_getD]; exact hrows m (by show m < k.shape.length; rw [hkl]; exact hm) hmn)
+      (fun m hm hmn => hcols m (by show m < k.shape.length; rw [hkl]; exact hm) hmn)
+      (fun m hm _ => by rw [← kshape_getD]; exact hposm m (by show m < k.shape.length; rw [hkl]; exact hm))
+    refine ⟨V, hV, ⟨by rw [h1]; exact (kshape_getD k n).symm, h2⟩, ?_⟩
+    intro i r hi hr
+    exact hval i r (by rw [← kshape_getD]; exact hi) hr
+  | tucker t =>
+    have htl : t.shape.length = t.factors.length := tshape_length t
+    obtain ⟨V, hV, h1, h2, hval⟩ := tucker_mttkrp_list_spec t hp.1 U n R (htl ▸ hN2) (htl ▸ hn) (htl ▸ hlen)
+      (fun m hm hmn => by rw [← tshape_getD]; exact hrows m (by show m < t.shape.length; rw [htl]; exact hm) hmn)
+      (fun m hm hmn => hcols m (by show m < t.shape.length; rw [htl]; exact hm) hmn)
+      (fun m hm _ => by rw [← tshape_getD]; exact hposm m (by show m < t.shape.length; rw [htl]; exact hm))
+      hpp
+    refine ⟨V, hV, ⟨by rw [h1]; exact (tshape_getD t n).symm, h2⟩, ?_⟩
+    intro i r hi hr
+    exact hval i r (by rw [← tshape_getD]; exact hi) hr
+
+/-! ### sum tensors of well-formed parts -/
+
+/-- **`sumtensor.innerprod(other)`** for well-formed parts of one shape. -/
+theorem sum_innerprod_full [CommSemiring α] [DecidableEq α] (p0 : ML.Part α) (ps : List (ML.Part α)) (o : ML.Part α)
+    (hwf : ∀ p ∈ p0 :: ps, PartWF p) (ho : PartWF o) (hsh : ∀ p ∈ ps, p.shape = p0.shape)
+    (hso : p0.shape = o.shape) (hok : ∀ p ∈ p0 :: ps, InnerOk p o) :
+    ML.Sumtensor.innerprod (p0 :: ps) o = .ok (Spec.inner (sumDen p0.shape (p0 :: ps)) (partDen o)) := by
+  apply sum_innerprod_spec p0 ps o hsh
+  intro p hp
+  apply part_innerprod_spec p o (hwf p hp) ho ?_ (hok p hp)
+  rcases List.mem_cons.1 hp with rfl | h
+  · exact hso
+  · rw [hsh p h]; exact hso
+
+/-- **`sumtensor.mttkrp(U, n)`** with a factor list, for well-formed parts of one shape. -/
+theorem sum_mttkrp_full [CommSemiring α] [DecidableEq α] (p0 : ML.Part α) (ps : List (ML.Part α))
+    (hwf : ∀ p ∈ p0 :: ps, PartWF p) (hpp : ∀ p ∈ p0 :: ps, PartPos p) (hsh : ∀ p ∈ ps, p.shape = p0.shape)
+    (U : List (Mat α)) (n R : Nat)
+    (hN2 : 2 ≤ p0.shape.length) (hn : n < p0.shape.length) (hlen : U.length = p0.shape.length)
+    (hrows : ∀ m, m < p0.shape.length → m ≠ n → (U.getD m []).length = p0.shape.getD m 0)
+    (hcols : ∀ m, m < p0.shape.length → m ≠ n → ∀ row ∈ U.getD m [], row.length = R)
+    (hpos : ∀ e ∈ p0.shape, 0 < e) :
+    ∃ W, ML.Sumtensor.mttkrp (p0 :: ps) (.list U) n = .ok W ∧ MatShape W (p0.shape.getD n 0) R ∧
+      ∀ i r, i < p0.shape.getD n 0 → r < R →
+        W.get i r = Spec.mttkrp (sumDen p0.shape (p0 :: ps)) (fun m x c => (U.getD m []).get x c) (fun _ => 1) n i r := by
+  apply sum_mttkrp_spec p0 ps (.list U) _ _ n (p0.shape.getD n 0) R hsh
+  intro p hp
+  have hps : p.shape = p0.shape := by
+    rcases List.mem_cons.1 hp with rfl | h
+    · rfl
+    · exact hsh p h
+  have := part_mttkrp_list p (hwf p hp) (hpp p hp) U n R (hps ▸ hN2) (hps ▸ hn) (hps ▸ hlen)
+    (by rw [hps]; exact hrows) (by rw [hps]; exact hcols) (by rw [hps]; exact hpos)
+  rw [hps] at this
+  exact this
+
+/-- **`sumtensor.ttv`** (`dims` in any order, one vector per listed mode) for well-formed parts of one
+shape: a scalar exactly when every mode is selected, otherwise a sum tensor of the parts' results;
+it denotes `Spec.ttv` of the cell-wise sum. -/
+theorem sum_ttv_full [CommSemiring α] [DecidableEq α] (p0 : ML.Part α) (ps : List (ML.Part α))
+    (hwf : ∀ p ∈ p0 :: ps, PartWF p) (hsh : ∀ p ∈ ps, p.shape = p0.shape)
+    (d : List Nat) (vs : List (List α)) (hd : d.Nodup) (hN : ∀ x ∈ d, x < p0.shape.length) (hl : vs.length = d.length)
+    (hsz : ∀ q ∈ d.zip vs, q.2.length = p0.shape.getD q.1 0)
+    (w : Nat → Nat → α) (hw : ∀ q ∈ d.zip vs, ∀ k, w q.1 k = q.2.getD k 0) :
+    ∃ res, ML.Sumtensor.ttv (p0 :: ps) vs (some (d.map Int.ofNat)) none = .ok res ∧
+      ((∃ v, res = .scalar v) ↔ complDims p0.shape.length d = []) ∧
+      ∀ i, InBounds (gather p0.shape (complDims p0.shape.length d)) i →
+        sumResGet res i = Spec.ttv (sumDen p0.shape (p0 :: ps)) d w i := by
+  have := sum_ttv_spec p0 ps vs (some (d.map Int.ofNat)) none d w (gather p0.shape (complDims p0.shape.length d)) hsh
+    (by
+      intro p hp
+      have hps : p.shape = p0.shape := by
+        rcases List.mem_cons.1 hp with rfl | h
+        · rfl
+        · exact hsh p h
+      obtain ⟨r, hr, hk, hg⟩ := part_ttv_dims p (hwf p hp) d vs hd (hps ▸ hN) hl (by rw [hps]; exact hsz) w hw
+      rw [hps] at hk hg
+      refine ⟨r, hr, ?_, hg⟩
+      rw [hk]
+      exact ⟨fun h => by rw [h]; rfl, gather_eq_nil⟩)
+  obtain ⟨res, e, hk, hg⟩ := this
+  refine ⟨res, e, ?_, hg⟩
+  rw [hk]
+  exact ⟨gather_eq_nil, fun h => by rw [h]; rfl⟩
 
 end MLK
 end Pyttb
